@@ -1,6 +1,7 @@
 """masks — the literal tables C04's theorems mention, re-read from the Rust sources on every run:
   * the ignore markers of CommentMasker::new (harper-comments/src/masker.rs): every
-    `text.contains("…")` and `text.starts_with("…")` of the closure, in order;
+    `text.contains("…")` and `text.starts_with("…")` of the closure, in order; the shebang prefix and the
+    shape of the filter_map of CommentMasker::create_mask;
   * the comment-leader characters of is_comment_character (harper-comments/src/comment_parsers/mod.rs);
   * the node conditions (CommentParser: kind contains "comment"; HtmlParser: kind == "text");
   * the two LaTeX fences of the Literate Haskell masker.
@@ -33,9 +34,28 @@ def generate(repo):
             raise RuntimeError("masker.rs: unrecognised term in the ignore condition: %r" % t)
     if not markers:
         raise RuntimeError("masker.rs: no ignore markers found")
-    # the closure must be the one create_mask filters with
-    if not re.search(r"\.filter\(\|\(_, text\)\| !\(self\.ignore_condition\)\(text\)\)", src):
-        raise RuntimeError("masker.rs: create_mask no longer filters with !ignore_condition")
+    # the closure must be the one create_mask filters with; since 075dccb the shebang is handled in
+    # create_mask itself: a span starting with the shebang prefix loses its first line, the rest (or any
+    # other span) is kept iff the closure is false
+    body2 = src[src.index("fn create_mask"):]
+    shape = [
+        r"\.iter_allowed\(source\)\s*\.map\(\|\(span, chars\)\| \(span, chars\.iter\(\)\.collect::<String>\(\)\)\)\s*\.filter_map\(\|\(span, text\)\| \{",
+        r"let line_len = text\.chars\(\)\.position\(\|c\| c == '\\n'\)\? \+ 1;",
+        r"let rest: String = text\.chars\(\)\.skip\(line_len\)\.collect\(\);",
+        r"let rest_span = harper_core::Span::new\(span\.start \+ line_len, span\.end\);",
+        r"return \(!\(self\.ignore_condition\)\(&rest\)\)\.then_some\(rest_span\);",
+        r"\(!\(self\.ignore_condition\)\(&text\)\)\.then_some\(span\)\s*\}\)\s*\.collect\(\)",
+    ]
+    pos = 0
+    for pat in shape:
+        mm = re.compile(pat).search(body2, pos)
+        if not mm:
+            raise RuntimeError("masker.rs: create_mask no longer has the shebang/ignore filter_map shape (%s)" % pat)
+        pos = mm.end()
+    sheb = re.findall(r'if text\.starts_with\("((?:[^"\\]|\\.)*)"\) \{', body2)
+    if len(sheb) != 1 or body2.count("starts_with") != 1:
+        raise RuntimeError("masker.rs: create_mask: expected exactly one starts_with (the shebang prefix): %r" % sheb)
+    shebang = unescape(sheb[0])
     # ---- comment characters ----
     src2 = open(os.path.join(repo, "harper-comments/src/comment_parsers/mod.rs"), encoding="utf-8").read()
     m2 = re.search(r"fn is_comment_character\(c: char\) -> bool \{\s*matches!\(c,\s*(.*?)\)\s*\}", src2, re.S)
@@ -76,6 +96,8 @@ def generate(repo):
     out.append("Definition ignore_prefixes : list (list N) := [")
     out.append(";\n".join("  %s  (* %s *)" % (cps(s), s) for s in prefixes))
     out.append("].")
+    out.append("(* CommentMasker::create_mask: a span whose text starts_with(shebang_prefix) loses its first line *)")
+    out.append("Definition shebang_prefix : list N := %s.  (* %s *)" % (cps(shebang), shebang))
     out.append("(* is_comment_character *)")
     out.append("Definition comment_characters : list N := %s." % cps("".join(chars)))
     out.append("(* node conditions: CommentParser `kind().contains(..)`, HtmlParser `kind() == ..` *)")
